@@ -36,7 +36,18 @@ func (e *exporter) stringLabel(f adt.Feature) ast.Label {
 		return ast.NewIdent(s)
 
 	default:
-		return ast.NewStringLabel(e.ctx.IndexToString(int64(x)))
+		name := e.ctx.IndexToString(int64(x))
+		switch name {
+		case "package", "import":
+			// These are valid identifiers, so ast.NewStringLabel leaves them
+			// unquoted. However, the exported declarations may end up at the
+			// top level of a file (see toFile and Value.Syntax), where the
+			// parser takes a leading "package" or any "import" for the start
+			// of a package clause or import declaration, not for a field.
+			// Always quote them: a quoted label is valid in any position.
+			return ast.NewString(name)
+		}
+		return ast.NewStringLabel(name)
 	}
 }
 
